@@ -322,14 +322,14 @@ mutual
   def renderOrderBy (c : Ctx) (sel : List Term) (aq : Option Char) : List (Term × Option Ord) → List Doc
     | [] => []
     | (t, o) :: ts =>
-        ((if aliasSelected sel t.alias? then [Piece.ident (orQ aq c.q) (t.alias?.getD [])]
+        ((if aliasSelected sel t.alias? then [Piece.aliasRef (orQ aq c.q) (t.alias?.getD [])]
           else render c t) ++ (match o with | some o => [kws " ", .kw o.text] | none => [])) ::
         renderOrderBy c sel aq ts
 
   def renderGroupBy (c : Ctx) (sel : List Term) (useAlias : Bool) (aq : Option Char) : List Term → List Doc
     | [] => []
     | t :: ts =>
-        (if useAlias && aliasSelected sel t.alias? then [Piece.ident (orQ aq c.q) (t.alias?.getD [])]
+        (if useAlias && aliasSelected sel t.alias? then [Piece.aliasRef (orQ aq c.q) (t.alias?.getD [])]
          else render c t) :: renderGroupBy c sel useAlias aq ts
 
   def renderRows (c : Ctx) : List (List Term) → List Doc
@@ -440,29 +440,31 @@ mutual
             paginate fl.cls fl.limit fl.offset ++ forUpdateDoc fl k.q
           parensIf c.subquery body ++
             opt c.withAlias (aliasDoc { k with aliasQuote := some fl.cls.queryAliasQuoteChar } k.q fl.alias)
-      -- dialect-level suffixes, appended after the generic get_sql has returned
+      -- dialect-level suffixes, appended after the generic get_sql has returned (bound by `let` before the
+      -- class dispatch: the model is pure, and the functional induction principle then provides the
+      -- hypotheses for these parts in every branch)
+      let dupDoc : Doc := joinDocs (K ",") (renderPairs kd kd duplicateUpdates)
+      let conflictDoc : Doc :=
+        conflictGuard fl.onConflictDoNothing onConflictDoUpdates.isEmpty onConflictFields.isEmpty
+          (kws " ON CONFLICT" ::
+            opt (!onConflictFields.isEmpty)
+              (kws " (" :: joinDocs (K ", ") (renderL { kd with withAlias := true, subquery := false } onConflictFields) ++ K ")") ++
+            opt onConflictWheres.isSome (K " WHERE ") ++
+            renderOpt { kd with withAlias := false, subquery := true } onConflictWheres) ++
+        (if fl.onConflictDoNothing then K " DO NOTHING"
+         else opt (!onConflictDoUpdates.isEmpty)
+           (kws " DO UPDATE SET " ::
+             joinDocs (K ",") (renderConflictUpdates { kd with withAlias := false, subquery := false } onConflictDoUpdates) ++
+             opt onConflictDoUpdateWheres.isSome (K " WHERE ") ++
+             renderOpt { kd with withAlias := false, subquery := true, withNamespace := true } onConflictDoUpdateWheres))
+      let returningDoc : Doc := opt (!returns.isEmpty) (kws " RETURNING " ::
+        joinDocs (K ",") (renderL { kd with subquery := false, withNamespace := updateTable.isSome, withAlias := true } returns))
       if fl.cls = .mysql then
         (if flatten core = [] then core
-         else if !duplicateUpdates.isEmpty then
-           core ++ kws " ON DUPLICATE KEY UPDATE " :: joinDocs (K ",") (renderPairs kd kd duplicateUpdates)
+         else if !duplicateUpdates.isEmpty then core ++ kws " ON DUPLICATE KEY UPDATE " :: dupDoc
          else if fl.ignoreDuplicates then core ++ K " ON DUPLICATE KEY IGNORE"
          else core)
-      else if fl.cls = .postgresql then
-        core ++
-          conflictGuard fl.onConflictDoNothing onConflictDoUpdates.isEmpty onConflictFields.isEmpty
-            (kws " ON CONFLICT" ::
-              opt (!onConflictFields.isEmpty)
-                (kws " (" :: joinDocs (K ", ") (renderL { kd with withAlias := true, subquery := false } onConflictFields) ++ K ")") ++
-              opt onConflictWheres.isSome (K " WHERE ") ++
-              renderOpt { kd with withAlias := false, subquery := true } onConflictWheres) ++
-          (if fl.onConflictDoNothing then K " DO NOTHING"
-           else opt (!onConflictDoUpdates.isEmpty)
-             (kws " DO UPDATE SET " ::
-               joinDocs (K ",") (renderConflictUpdates { kd with withAlias := false, subquery := false } onConflictDoUpdates) ++
-               opt onConflictDoUpdateWheres.isSome (K " WHERE ") ++
-               renderOpt { kd with withAlias := false, subquery := true, withNamespace := true } onConflictDoUpdateWheres)) ++
-          opt (!returns.isEmpty) (kws " RETURNING " ::
-            joinDocs (K ",") (renderL { kd with subquery := false, withNamespace := updateTable.isSome, withAlias := true } returns))
+      else if fl.cls = .postgresql then core ++ conflictDoc ++ returningDoc
       else if fl.cls = .vertica then
         (match fl.hint with
          | some h => verticaSplice h core
